@@ -896,8 +896,12 @@ pub fn ref_instr2(s0: &StateSpec, name: &str) -> Expect {
                 if name.ends_with("DESC") {
                     v.reverse();
                 }
-                // +0 / -0 compare equal: order between them free -> permutation-insensitive compare
-                // is by class (spec::feq treats +0 == -0), so exact comparison is fine.
+                // +0 / -0 compare equal, the order between them is free: zeros are compared
+                // numerically (tolerance 0), everything else by identity
+                if v.iter().any(|x| *x == 0.0) {
+                    let tol = vec![0.0f32; v.len()];
+                    return Expect::wild(s, Wild { fvec_top_tol: Some(tol), ..Default::default() });
+                }
             }
             fired(s)
         }
